@@ -848,6 +848,24 @@ func isSafeForMultilineReverseSuffix(re *syntax.Regexp) bool {
 	}
 }
 
+// hasAssertionOtherThanEndText reports whether re contains \b, \B, ^, (?m)$ or
+// \A anywhere. The reversed automaton of the reverse-anchored search follows
+// assertions as plain epsilons; only the final \z is accounted for (the scan
+// starts at the end of the haystack).
+func hasAssertionOtherThanEndText(re *syntax.Regexp) bool {
+	switch re.Op {
+	case syntax.OpBeginLine, syntax.OpEndLine, syntax.OpBeginText,
+		syntax.OpWordBoundary, syntax.OpNoWordBoundary:
+		return true
+	}
+	for _, sub := range re.Sub {
+		if hasAssertionOtherThanEndText(sub) {
+			return true
+		}
+	}
+	return false
+}
+
 // canConsumeNewline reports whether some match of re may contain '\n'.
 func canConsumeNewline(re *syntax.Regexp) bool {
 	switch re.Op {
@@ -1436,7 +1454,8 @@ func SelectStrategy(n *nfa.NFA, re *syntax.Regexp, literals *literal.Seq, config
 	isEndAnchored := re != nil && nfa.IsPatternEndAnchored(re)
 	hasStartAnchor := re != nil && nfa.IsPatternStartAnchored(re)
 
-	if re != nil && config.EnableDFA && isEndAnchored && !isStartAnchored && !hasStartAnchor {
+	if re != nil && config.EnableDFA && isEndAnchored && !isStartAnchored && !hasStartAnchor &&
+		!hasAssertionOtherThanEndText(re) {
 		// Perfect candidate for reverse search
 		// Example: "pattern.*suffix$" on large haystack
 		// Forward: O(n*m) tries, Reverse: O(m) one try
